@@ -23,6 +23,8 @@ def check(run, views, tier):
         rr.r_token(run, F)
         rr.r_dispatch(run, F)
         rr.r_trace_display(run, F)
+        rr.r_propagate(run, F)
+        rr.r_reject(run, F)        # a new rejection aborts the parse: nothing of the message or its payload is delivered
         # "delivered unmodified as the document payload": the payload adaptor forwards reads unchanged (C08's R-FORWARD)
         from ..engine import include
         from . import c08
